@@ -21,6 +21,16 @@ type layGen struct {
 	r     *lib.Rand
 	nl    func() string // newline sequence for this layout
 	style string
+	pEdge int // chance (percent) that a comment is drawn from the look-ahead edge grammar
+	glue  int // chance (percent) that a comment is written without a blank before / after it
+}
+
+// cblanks: the blanks next to a comment (none at all with chance glue).
+func (g *layGen) cblanks() string {
+	if g.r.Chance(g.glue) {
+		return ""
+	}
+	return g.blanks(1)
 }
 
 func (g *layGen) blanks(min int) string {
@@ -29,6 +39,8 @@ func (g *layGen) blanks(min int) string {
 	for i := 0; i < n; i++ {
 		if g.r.Chance(15) {
 			sb.WriteByte('\t')
+		} else if g.pEdge > 50 && g.r.Chance(6) {
+			sb.WriteByte("\v\f"[g.r.Intn(2)]) // white space for the scanner as for Lua's isspace
 		} else {
 			sb.WriteByte(' ')
 		}
@@ -39,8 +51,82 @@ func (g *layGen) blanks(min int) string {
 var commentWords = []string{"x", "note", "end", "if x then", "--", "]]", "[[", "local a = 1", "\"", "error('m')", "1 2 3", ""}
 var lineWords = []string{"x", " note", "end", " if x then", "--", "]]", " [[", " local a = 1", "\"", " error('m')", "-[[", ""}
 
+func (g *layGen) pick(xs ...string) string { return xs[g.r.Intn(len(xs))] }
+
+// edgeLineText makes the text of a line comment (what follows "--") out of the bytes the scanner
+// looks ahead for: a long-bracket opener cut short at every position ("[", "[=", "[==" ... then the
+// end of the line or a byte other than '['), closers without opener, further dashes, quotes and a
+// backslash before the line end. Never a complete opener "[" "="* "[" at the start.
+func (g *layGen) edgeLineText() string {
+	switch g.r.Intn(8) {
+	case 0, 1, 2, 3:
+		s := "[" + strings.Repeat("=", g.r.Intn(4))
+		if g.r.Chance(45) {
+			s += g.pick(" ", "x", "]", "-", "=]", "]]", " [", "x[", "\t", "]=]", "--", "\\")
+			if g.r.Chance(40) {
+				s += g.pick("[", "[[", "=", "]]", " x", "[=[", "--[[")
+			}
+		}
+		return s
+	case 4:
+		return g.pick("]", "]]", "]=]", "]==]", "=", "==[", "]=", "] ]") + g.pick("", "", " x", "[")
+	case 5:
+		return g.pick("-", "--", "-[[", "-[==[", "-[", "-[=", "- [[") + g.pick("", "", "x]]", "]]")
+	case 6:
+		return g.pick("\\", "x\\", "\"", "'", "\\n", " [[\\", "\\[[", "\xff", "\x00", "\xc3\xa9[=", "\x1a", "[\xff", "[=\x00")
+	default:
+		return g.pick("", "", " ", "\t", strings.Repeat("x", 60+g.r.Intn(200)))
+	}
+}
+
+func (g *layGen) lineText() string {
+	if g.r.Chance(g.pEdge) {
+		return g.edgeLineText()
+	}
+	return lineWords[g.r.Intn(len(lineWords))]
+}
+
 func (g *layGen) lineComment() string {
-	return "--" + lineWords[g.r.Intn(len(lineWords))] + g.nl()
+	return "--" + g.lineText() + g.nl()
+}
+
+// closes reports whether body followed by the closer ends exactly where it should (the closer does
+// not occur earlier, e.g. through a body that ends in "]").
+func closes(body, closer string) bool {
+	return strings.Index(body+closer, closer) == len(body)
+}
+
+// soup makes the body of a long bracket of the given level out of closer and opener look-alikes of
+// every level, dashes, quotes, backslashes and line ends (directly after "]", "]=", "[", "-", "\\" too).
+func (g *layGen) soup(eq string, nl func() string) string {
+	var sb strings.Builder
+	if g.r.Chance(35) {
+		sb.WriteString(nl()) // the scanner drops a first line end from the value, not from the count
+	}
+	n := g.r.Intn(6)
+	for i := 0; i < n; i++ {
+		switch g.r.Intn(10) {
+		case 0, 1:
+			sb.WriteString("]" + strings.Repeat("=", g.r.Intn(4)))
+		case 2:
+			sb.WriteString(g.pick("[", "[=", "[=[", "[==[", "=", "=="))
+		case 3:
+			sb.WriteString(g.pick("-", "--", "--[", "--]", "\\", "\"", "'", "\xff", "\x00"))
+		case 4, 5:
+			sb.WriteString(g.pick("x", " ", "end", "a b", "1"))
+		default:
+			sb.WriteString(nl())
+		}
+	}
+	body := sb.String()
+	closer := "]" + eq + "]"
+	if !closes(body, closer) {
+		body = strings.ReplaceAll(body, "]", ")")
+	}
+	if eq == "" {
+		body = strings.ReplaceAll(body, "[[", "[(") // Lua 5.1 rejects a nested level-0 opener
+	}
+	return body
 }
 
 func (g *layGen) blockComment() string {
@@ -48,6 +134,12 @@ func (g *layGen) blockComment() string {
 	eq := ""
 	if g.r.Chance(40) {
 		eq = strings.Repeat("=", 1+g.r.Intn(2))
+	}
+	if g.r.Chance(g.pEdge) {
+		if g.r.Chance(30) {
+			eq = strings.Repeat("=", g.r.Intn(4))
+		}
+		return "--[" + eq + "[" + g.soup(eq, g.nl) + "]" + eq + "]"
 	}
 	var sb strings.Builder
 	sb.WriteString("--[" + eq + "[")
@@ -91,9 +183,14 @@ func (g *layGen) sep(prev, next string, pNL, more, pc int) string {
 		if tight(prev, next) && g.r.Chance(50) {
 			return ""
 		}
-		sb.WriteString(g.blanks(1))
 		if g.r.Chance(pc / 3) {
+			sb.WriteString(g.cblanks())
 			sb.WriteString(g.blockComment())
+			for g.r.Chance(g.glue) { // comments back to back
+				sb.WriteString(g.blockComment())
+			}
+			sb.WriteString(g.cblanks())
+		} else {
 			sb.WriteString(g.blanks(1))
 		}
 		return sb.String()
@@ -101,7 +198,7 @@ func (g *layGen) sep(prev, next string, pNL, more, pc int) string {
 	// a line break, maybe preceded by a trailing comment, maybe followed by more lines
 	if prev != "" || g.r.Chance(50) {
 		if g.r.Chance(pc) {
-			sb.WriteString(g.blanks(1))
+			sb.WriteString(g.cblanks())
 			if g.r.Chance(70) {
 				sb.WriteString(g.lineComment())
 			} else {
@@ -120,10 +217,10 @@ func (g *layGen) sep(prev, next string, pNL, more, pc int) string {
 			sb.WriteString(g.blanks(0))
 			sb.WriteString(g.nl())
 		case 2:
-			sb.WriteString(g.blanks(1))
+			sb.WriteString(g.cblanks())
 			sb.WriteString(g.lineComment())
 		default:
-			sb.WriteString(g.blanks(1))
+			sb.WriteString(g.cblanks())
 			sb.WriteString(g.blockComment())
 			if g.r.Chance(70) {
 				sb.WriteString(g.nl())
@@ -158,20 +255,32 @@ func stmtStarts(p *Program) map[int]bool {
 // per line, LF); the others are drawn from the styles below.
 func makeLayout(p *Program, k int, r *lib.Rand) Layout {
 	g := &layGen{r: r}
-	styles := []string{"tidy", "spread", "comments", "tokenline", "mixed", "blanklines", "crlf-tidy"}
+	styles := []string{"tidy", "spread", "comments", "tokenline", "mixed", "blanklines", "crlf-tidy", "lexedge"}
 	style := styles[0]
 	if k > 0 {
 		style = styles[1+r.Intn(len(styles)-1)]
+	}
+	if k == 2 {
+		style = "lexedge"
 	}
 	if k == 3 {
 		style = "tokenline"
 	}
 	g.style = style
+	g.pEdge, g.glue = 25, 10
 	kind := nlKinds[r.Pick(4, 3, 3, 1)]
 	if style == "tidy" {
 		kind = "\n"
 	}
-	if style == "mixed" {
+	mixed := style == "mixed"
+	if style == "lexedge" {
+		// comments everywhere, most of them drawn from the scanner's look-ahead decisions, written
+		// with and without blanks around them; one newline convention or all of them
+		g.pEdge, g.glue = 75, 35
+		mixed = r.Chance(40)
+	}
+	if mixed {
+		kind = "mixed"
 		g.nl = func() string { return nlKinds[r.Pick(4, 3, 3, 1)] }
 	} else {
 		g.nl = func() string { return kind }
@@ -204,6 +313,8 @@ func makeLayout(p *Program, k int, r *lib.Rand) Layout {
 			} else {
 				s = g.sep(prev, t, 5, 0, 0)
 			}
+		case "lexedge":
+			s = g.sep(prev, t, 35, 30, 80)
 		default: // mixed
 			s = g.sep(prev, t, 40, 25, 35)
 		}
@@ -228,7 +339,80 @@ func makeLayout(p *Program, k int, r *lib.Rand) Layout {
 	if r.Chance(70) {
 		lay.Tail = g.nl()
 	}
+	if style != "tidy" && r.Chance(g.pEdge) {
+		lay.Tail = g.tail()
+	}
+	if style == "lexedge" && r.Chance(50) {
+		g.align(p, &lay)
+	}
 	return lay
+}
+
+// tail makes the end of the file: a comment that is ended by the end of the input instead of a
+// line end (every cut of an opener among them), blanks, several line ends, or nothing at all.
+func (g *layGen) tail() string {
+	var sb strings.Builder
+	for g.r.Chance(40) {
+		sb.WriteString(g.pick(g.nl(), g.blanks(1), g.cblanks()+g.lineComment(), g.cblanks()+g.blockComment()))
+	}
+	switch g.r.Intn(4) {
+	case 0, 1:
+		sb.WriteString(g.cblanks() + "--" + g.lineText())
+	case 2:
+		sb.WriteString(g.cblanks() + g.blockComment())
+	}
+	return sb.String()
+}
+
+const scanBuf = 4096 // parse.NewScanner: bufio.NewReaderSize(reader, 4096)
+
+// align pads one separator with a one-line block comment so that a multiple of the scanner's
+// read-buffer size falls inside (or directly before / after) a piece of text the scanner decides
+// on by looking ahead: a line end (pair), a comment opener or its look-alike, a long-bracket
+// closer, an escaped line end, a multi-character operator. No line number changes.
+func (g *layGen) align(p *Program, lay *Layout) {
+	n := len(p.Toks)
+	// prefer a token with a line break inside, or a separator with a comment / line end
+	var cand []int
+	for i, t := range p.Toks {
+		if strings.ContainsAny(t, "\n\r") || strings.ContainsAny(lay.Seps[i], "\n\r-") {
+			cand = append(cand, i)
+		}
+	}
+	i := g.r.Intn(n)
+	if len(cand) > 0 && g.r.Chance(85) {
+		i = cand[g.r.Intn(len(cand))]
+	}
+	off := 0
+	for j := 0; j < i; j++ {
+		off += len(lay.Seps[j]) + len(p.Toks[j])
+	}
+	e := lay.Seps[i] + p.Toks[i]
+	if i+1 < n {
+		e += lay.Seps[i+1]
+	} else {
+		e += lay.Tail
+	}
+	// the byte of e that is to be the first byte of a new buffer: next to an interesting byte
+	var ds []int
+	for d := 0; d <= len(e); d++ {
+		hot := func(k int) bool { return k >= 0 && k < len(e) && strings.IndexByte("\n\r[]=-\\", e[k]) >= 0 }
+		if hot(d) || hot(d-1) {
+			ds = append(ds, d)
+		}
+	}
+	d := g.r.Intn(len(e) + 1)
+	if len(ds) > 0 && g.r.Chance(85) {
+		d = ds[g.r.Intn(len(ds))]
+	}
+	pre := ""
+	if i > 0 && strings.HasSuffix(p.Toks[i-1], "-") {
+		pre = " "
+	}
+	const frame = 6 // "--[[" "]]"
+	l := (scanBuf - (off+len(pre)+frame+d)%scanBuf) % scanBuf
+	lay.Seps[i] = pre + "--[[" + strings.Repeat("x", l) + "]]" + lay.Seps[i]
+	lay.Style += "/aligned"
 }
 
 // render returns the source text and the (offset, length) of every token.
